@@ -22,14 +22,21 @@ theorem tips_loop : ∀ (xs : List Int) (v : get_tips.V),
     rw [e]
     simp
 
+theorem distinct_iff : ∀ l : List Int, Py.distinct l = true ↔ l.Nodup := by
+  intro l
+  induction l with
+  | nil => simp [Py.distinct]
+  | cons x xs ih => simp [Py.distinct, ih]
+
 /-- **`Tree.get_tips` as translated** never raises and returns `np.setdiff1d(ids, pids, assume_unique=True)` = the model `getTips`
-(the ids that never occur in the parent column, in table order) — for ANY two columns -/
-theorem getTips_refines (ids pids : List Int) : get_tips ids pids = some (getTips ids pids) := by
-  obtain ⟨ix, e⟩ := tips_loop (Py.setdiff1dAU ids pids)
-    { (default : get_tips.V) with ids := ids, pids := pids, tip_ids := Py.setdiff1dAU ids pids, c0_ := [] }
-  simp only [get_tips, get_tips.body, Py.seq, Py.bindS]
+(the ids that never occur in the parent column, in table order) — for any two columns with distinct ids (what numpy returns when
+the FIRST array repeats a value depends on the algorithm it picks: no claim is made there, `Py.setdiff1dUnique`) -/
+theorem getTips_refines (ids pids : List Int) (hd : ids.Nodup) : get_tips ids pids = some (getTips ids pids) := by
+  obtain ⟨ix, e⟩ := tips_loop (ids.filter fun x => !pids.contains x)
+    { (default : get_tips.V) with ids := ids, pids := pids, tip_ids := ids.filter fun x => !pids.contains x, c0_ := [] }
+  simp only [get_tips, get_tips.body, Py.seq, Py.bind, Py.bindS, Py.setdiff1dUnique, (distinct_iff ids).2 hd, if_true]
   rw [e]
-  simp [Py.finish, Py.setdiff1dAU, getTips]
+  simp [Py.finish, getTips]
 
 /-! ### `Tree.Node.branch`
 
